@@ -45,7 +45,7 @@ def make_record(uid, refs=(), pad=0, cls='Node', extra=None):
     p.persistent_id = pid
     p.dump(klass)
     state = {'id': uid, 'refs': [r if isinstance(r, Ref) else Ref(r) for r in refs],
-             'pad': 'x' * pad}
+             'pad': b'\xfe' * pad}
     if extra:
         state.update(extra)
     p = pickle.Pickler(f, 3)
